@@ -156,7 +156,14 @@ class World(object):
             ("get_logic(len(st)<=3)", lambda: self._call(lambda: "%s %s" % (get_logic(self.str_len, self.env), get_logic(self.bv2nat, self.env)), "text")),
             ("get_logic(const array)", lambda: self._call(lambda: get_logic(self.const_arr, self.env), "text")),
             ("subst shared_map phi3 (quantified)", lambda: self._call(lambda: self.phi3.substitute(self.shared_map))),
+            # the environment's size oracle driven through its public walker interface with another measure
+            ("sizeo.set_walking_measure(depth); walk(phi1)", lambda: self._call(lambda: self._size_walk(), "text")),
         ]
+
+    def _size_walk(self):
+        so = self.env.sizeo
+        so.set_walking_measure(so.MEASURE_DEPTH)
+        return so.walk(self.phi1, measure=so.MEASURE_DEPTH)
 
     def c15_good_calls(self):
         g = self.good_calls()
@@ -224,6 +231,10 @@ class World(object):
             ("subst with the map object rejected last", lambda: self._call(lambda: " ".join(self._outcome(fn) for fn in (
                 lambda: self.phi2.substitute(self.bad_map_foreign), lambda: self.phi4.substitute(self.bad_map_funsym),
                 lambda: self.phi1.substitute(self.bad_map_funsym), lambda: self.phi1.substitute(self.bad_map_foreign))), "text"), False),
+            # a substitution over a formula mentioning every symbol, with a map that mentions none of the keys of the
+            # rejected maps (run FIRST of all in the second probe order: a successful substitution wipes what an
+            # earlier rejected one may have left in the substituter)
+            ("subst {q:p} phi1", lambda: self._call(lambda: self.phi1.substitute({q: p})), True),
             ("subst shared_map after its content changed, phi3", lambda: self._call(lambda: self._subst_changed_map()), False),
             ("custom node after registering its type-checker rule", lambda: self._call(lambda: self._custom_with_rule(), "text"), False),
             ("subst {x:0} phi1", lambda: self._call(lambda: self.phi1.substitute({x: m.Int(0)})), True),
